@@ -7,6 +7,7 @@
      grid <lo> <n>                           from_numeric_offset(Timestamp(0,0), off, neg) for off in [lo,lo+n), neg in F,T
      dnew <tsrepr> <hex|nonbytes>            from_dict({"timestamp":..,"offset_bytes":..})
      dold <tsrepr> <off|absent> <T|F|absent> from_dict({"timestamp":..,"offset":..,"negative_utc":..})
+     dict <tsrepr> <hex|nonbytes|absent> <off|none|absent> <T|F|absent>   from_dict of a dict with any subset of the keys
      dt <epoch_us> <off_s>                   from_dict(aware datetime)
      naive | int <pyval> | other             from_dict(naive datetime | int/bool | other object)
      iso <epoch_us> <off_s> <T|F>            from_iso8601 after parse_date; flag = (tzname() == "-00:00")
@@ -15,7 +16,7 @@
      <seconds> <microseconds> <offset_bytes> <offset_minutes|!E> <format_date> <author_date_part> <epoch_us,off_s|!E> *)
 let err_name = function
   | ETimestampOverflow -> "TimestampOverflow" | EAttributeType -> "AttributeType" | EValue -> "Value"
-  | EAssertion -> "Assertion" | EKey -> "Key" | EOverflow -> "Overflow" | EUnmodelled -> "Unmodelled"
+  | EAssertion -> "Assertion" | EKey -> "Key" | EOverflow -> "Overflow" | EType -> "Type" | EUnmodelled -> "Unmodelled"
 let pyval s =
   if s = "bT" then VBool true else if s = "bF" then VBool false else if s = "o" then VOther
   else VInt (z_of_decimal (String.sub s 1 (String.length s - 1)))
@@ -61,11 +62,16 @@ let () = serve (function
       let offs = z_range (z_of_decimal lo) (pos_of_int (int_of_string n)) in
       "ok " ^ String.concat "," (List.concat_map (fun off ->
         [short (from_numeric_offset t off false); short (from_numeric_offset t off true)]) offs)
-  | ["dnew"; t; ob] -> show_tstz (from_dict (TRDictNew (tsrepr t, if ob = "nonbytes" then None else Some (bytes_of_hex ob))))
+  | ["dnew"; t; ob] -> show_tstz (from_dict (TRDict (tsrepr t, Some (if ob = "nonbytes" then None else Some (bytes_of_hex ob)), None, None)))
   | ["dold"; t; off; neg] ->
-      show_tstz (from_dict (TRDictOld (tsrepr t,
-                                       (if off = "absent" then None else Some (z_of_decimal off)),
-                                       (if neg = "absent" then None else Some (flag neg)))))
+      show_tstz (from_dict (TRDict (tsrepr t, None,
+                                    (if off = "absent" then None else Some (Some (z_of_decimal off))),
+                                    (if neg = "absent" then None else Some (flag neg)))))
+  | ["dict"; t; ob; off; neg] ->
+      show_tstz (from_dict (TRDict (tsrepr t,
+                                    (if ob = "absent" then None else if ob = "nonbytes" then Some None else Some (Some (bytes_of_hex ob))),
+                                    (if off = "absent" then None else if off = "none" then Some None else Some (Some (z_of_decimal off))),
+                                    (if neg = "absent" then None else Some (flag neg)))))
   | ["dt"; e; o] -> show_tstz (from_dict (TRDatetime { epoch_us = z_of_decimal e; off_s = z_of_decimal o }))
   | ["naive"] -> show_tstz (from_dict TRNaive)
   | ["int"; v] -> show_tstz (from_dict (TRInt (pyval v)))
